@@ -14,6 +14,7 @@
 //                "spaths": [...],                      BuildErrors paths of the strict error
 //                "senc": <json>|null, "sencs": ...}    json.Marshal of the strictly decoded value
 //           ],
+//           "ctor": <json>|null, "ctors": "ok"|"err"|"panic"|"",   json.Marshal(New<Type>())   (op "ctor")
 //           "eq": [[...]]}    Equals matrix over values [std(d0..dn-1), strict(d0..dn-1)]:
 //                             "t" | "f" | "p" (panic) | "-" (a value is missing: its decode failed)
 //
@@ -50,15 +51,17 @@ type docResult struct {
 }
 
 type result struct {
-	ID    string      `json:"id"`
-	Known bool        `json:"known"`
-	Res   []docResult `json:"res"`
-	Eq    [][]string  `json:"eq"`
+	ID    string          `json:"id"`
+	Known bool            `json:"known"`
+	Res   []docResult     `json:"res"`
+	Eq    [][]string      `json:"eq"`
+	Ctor  json.RawMessage `json:"ctor"`
+	Ctors string          `json:"ctors"`
 }
 
 func (j job) has(op string) bool {
 	if len(j.Ops) == 0 {
-		return true
+		return op != "ctor" // default: everything about the documents
 	}
 	for _, o := range j.Ops {
 		if o == op {
@@ -123,10 +126,18 @@ type strictPtr[T any] interface {
 	UnmarshalJSONStrict([]byte) error
 }
 
-// handleStruct drives a generated struct type T.
-func handleStruct[T structT[T], PT strictPtr[T]](j job) result {
+// handleStruct drives a generated struct type T; ctor is the generated New<T>().
+func handleStruct[T structT[T], PT strictPtr[T]](j job, ctor func() *T) result {
 	n := len(j.Docs)
 	res := result{ID: j.ID, Known: true, Res: make([]docResult, n)}
+	if j.has("ctor") {
+		var v *T
+		oc, _ := guard(func() error { v = ctor(); return nil })
+		res.Ctors = oc
+		if oc == "ok" {
+			res.Ctor, res.Ctors = encode(v)
+		}
+	}
 	values := make([]*T, 2*n)
 	for i, d := range j.Docs {
 		r := &res.Res[i]
